@@ -33,7 +33,10 @@ type Env struct {
 	bv      bool // bv64 mode
 	deps    map[string]bool
 	fuelSelf string // inside the body of this recursive spec function, self-calls use the bound fuel "ly"
-	fuelAll  bool   // in lemma axioms every fueled call uses the bound fuel "ly"
+	fuelAll  bool   // in lemma axioms every fueled call uses its own bound fuel variable ly<k>
+	fuelCtr  *int
+	fuelMap  map[string]string // application (without fuel) -> its bound fuel variable
+	fuelNew  bool              // elaborating a trigger: new applications get new fuel variables
 }
 
 func (e *Env) clone() *Env {
@@ -540,7 +543,7 @@ func (env *Env) indexOf(v, i Val) (Val, error) {
 			h := env.st.getHeap(env.P, "E$"+typeKey(u.Elem()), fmt.Sprintf("(Array Int (Array Int %s))", es))
 			inner = app(fmt.Sprintf("(Array Int %s)", es), "select", h, app("Int", "s_arr", v.T))
 		}
-		return Val{T: app(es, "select", inner, app("Int", "sidx", v.T, i.T)), GoT: u.Elem()}, nil
+		return Val{T: app(es, "select", inner, eidx(v.T, i.T)), GoT: u.Elem()}, nil
 	case *types.Array:
 		es := env.P.sorts.sortOf(u.Elem())
 		return Val{T: app(es, "select", v.T, i.T), GoT: u.Elem()}, nil
@@ -1114,7 +1117,21 @@ func (env *Env) callSpec(sf *SpecFunc, args []Val) (Val, error) {
 	rs := P.sorts.sortOf(si.resT)
 	if si.fuel {
 		f := Term{"FMAX", "Fuel"}
-		if env.fuelAll || env.fuelSelf == sf.Name {
+		if env.fuelAll && env.fuelCtr != nil {
+			// trigger terms get their own bound fuel variable; the same application elsewhere in the
+			// lemma shares it; every other application uses the constant fuel
+			key := app(rs, si.sym, ts...).S
+			name, ok := env.fuelMap[key]
+			if !ok && env.fuelNew {
+				*env.fuelCtr++
+				name = fmt.Sprintf("ly%d", *env.fuelCtr)
+				env.fuelMap[key] = name
+				ok = true
+			}
+			if ok {
+				f = Term{name, "Fuel"}
+			}
+		} else if env.fuelSelf == sf.Name {
 			f = Term{"ly", "Fuel"}
 		}
 		ts = append([]Term{f}, ts...)
